@@ -649,10 +649,13 @@ def hook_families(rng, dis, k, cap):
                 if j < len(L) and len(fam) < cap:
                     s, f = L[j]
                     b = c04.spec_bytes(rng, s, e, ml, fill=f)
+                    tail = bytes(rng.getrandbits(8) for _ in range(ml))
+                    if not s.size:
+                        b, tail = b + tail, b""         # variable length: the operand forms (ModRM ...) are in the bytes that follow
                     if b not in seen:
                         seen.add(b)
-                        fam.append(b + bytes(rng.getrandbits(8) for _ in range(ml)))
-        if len(fam) >= 2:
+                        fam.append(b + tail)
+        if fam:                 # (a family of one: the instruction itself decoded an odd / even number of times)
             out.append((hook_label(h, n), [b.hex() for b in fam]))
     return out
 
@@ -690,11 +693,12 @@ def hook_job(args):
         states = gen_states(random.Random(seed), regs, nstates)
         read_settings = settings_reader(conf, cpu)
         c0 = read_settings()
+        plast = probes(cpu, E, mapper, regs)
         with isa.ModeCtx(dis, k):
             for label, fam in _order(groups, variant, seed):
                 fam = _order([bytes.fromhex(h) for h in fam], variant, seed)
                 g0 = global_flags(cpu, regs)
-                rec = {"sig": {}, "asm": {}, "switch": None, "flag": None, "cfg": None}
+                rec = {"sig": {}, "asm": {}, "switch": None, "flag": None, "cfg": None, "probe": None}
                 mon = {"g": g0}
 
                 def monitor(b, i):
@@ -761,6 +765,13 @@ def hook_job(args):
                             sg[j] = None            # (None: equal to the first signature, or a stage that did not run)
                 res["groups"][label] = rec
                 res["members"] += len(fam)
+                if rec["flag"] or rec["switch"]:
+                    # a flag of a module-level object was written: sign-sensitive expressions freshly built over the registers
+                    p1 = probes(cpu, E, mapper, regs)
+                    if p1 != plast:
+                        ch = sorted(kk for kk in p1 if p1.get(kk) != plast.get(kk))
+                        rec["probe"] = (ch[:3], [plast.get(kk) for kk in ch[:3]], [p1.get(kk) for kk in ch[:3]])
+                        plast = p1
                 if rec["switch"]:
                     # decode-mode switches written by this group are put back (the write is reported with the group when its
                     # signatures differ) so that the following groups are explored from the module's own setting
@@ -768,6 +779,11 @@ def hook_job(args):
                     for kk in list(internals or {}):
                         if "internals." + str(kk) in g0 and internals[kk] != g0["internals." + str(kk)]:
                             internals[kk] = g0["internals." + str(kk)]
+        if "stopped" not in res:
+            p1 = probes(cpu, E, mapper, regs)
+            if p1 != plast:
+                ch = sorted(kk for kk in p1 if p1.get(kk) != plast.get(kk))
+                res["probe_end"] = (ch[:3], [plast.get(kk) for kk in ch[:3]], [p1.get(kk) for kk in ch[:3]])
     except Timeout:
         res["error"] = "time limit"
     except MemoryError:
@@ -872,6 +888,10 @@ def compare_hook(runs):
                             "switch": next((rec["switch"] for rec in recs if rec["switch"]), None),
                             "flag": next((rec["flag"] for rec in recs if rec["flag"]), None),
                             "family": list(rec0["sig"])})
+        for r, rec in zip(runs, recs):       # fresh sign-sensitive expressions over the registers changed value in this group
+            if rec["probe"] and rec["flag"] and not any(f["label"] == label and f.get("probe") for f in out):
+                out.append({"label": label, "member": None, "asm": None, "base": None, "bad": None, "cfg": None, "probe": rec["probe"], "order": r["variant"],
+                            "switch": rec["switch"], "flag": rec["flag"], "family": list(rec0["sig"])})
         for rec in recs:                     # a setting changed by a member that is reported nowhere else
             if rec["cfg"] and not any(f["label"] == label and f["cfg"] for f in out):
                 out.append({"label": label, "member": rec["cfg"][0], "asm": rec["cfg"][1], "base": None, "bad": None, "cfg": rec["cfg"],
@@ -881,6 +901,14 @@ def compare_hook(runs):
 
 def hook_finding(name, k, f, seed, nstates, first=None):
     """(key, what, replay) of a hook-group finding"""
+    if f.get("probe"):
+        fl = f["flag"]
+        key = "%s|%s|%s" % (name, fl[0], ",".join(fl[1]))
+        what = ("%s: fresh sign-sensitive expressions over the registers %s (r >> 1, r < 1, r ** r, r / 3 with all bits set) evaluate to %s instead of %s after the "
+                "instructions of the hook group %s were decoded and executed (order %d; first global write: %s by %s)" % (
+                    name, f["probe"][0], f["probe"][2], f["probe"][1], f["label"], f["order"], fl[1], fl[0]))
+        return key, what, {"kind": "hook-group", "isa": name, "mode": k, "seed": seed, "nstates": nstates, "hook": f["label"], "member": None,
+                           "family": f["family"], "expected": repr(f["probe"][1]), "observed": repr(f["probe"][2]), "culprit": fl}
     if f["cfg"] and not f["bad"]:
         key = "%s|global-config-change" % name
         what = "%s: a process-wide setting was changed by decoding / executing / evaluating %s [%s]: %s" % (name, f["member"], f["asm"], "; ".join(f["cfg"][2])[:200])
@@ -943,13 +971,23 @@ def check(run):
             finds, ng, nm = compare_hook([r for _, r in L])
             run.hist("hook_groups_compared", "%s_m%d" % (name, k), ng)
             run.hist("hook_members_compared", "%s_m%d" % (name, k), nm)
-            run.cov["evaluations"] += nm
+            for label, rec in L[0][1]["groups"].items():
+                for hb in rec["sig"]:
+                    run.count((name, k, hb), nontrivial=True)
+            for t, r in L:
+                if r.get("probe_end"):
+                    pe = r["probe_end"]
+                    run.violation("%s|fresh-expressions-after-hook-groups" % name,
+                                  "%s: fresh sign-sensitive expressions over the registers %s evaluate to %s instead of %s after the hook groups %s .. %s were decoded and "
+                                  "executed (no write to a flag of a module-level object was seen)" % (name, pe[0], pe[2], pe[1], t[6][0][0], t[6][-1][0]),
+                                  {"kind": "hook-group", "isa": name, "mode": k, "seed": s, "nstates": t[5], "hook": "chunk", "family": [], "chunk_groups": t[6]})
             for f in finds:
-                nfind[name] = nfind.get(name, 0) + 1
-                if nfind[name] > MAX_HOOK_FINDINGS:
-                    run.hist("hook_findings_not_reported", name)
-                    continue
                 nst = L[0][0][5]
+                if hook_finding(name, k, f, s, nst)[0] not in run.known:
+                    nfind[name] = nfind.get(name, 0) + 1
+                    if nfind[name] > MAX_HOOK_FINDINGS:
+                        run.hist("hook_findings_not_reported", name)
+                        continue
                 first = pool.apply(job, (("first", name, k, s, nst, f["member"]),)) if f["bad"] else None
                 run.violation(*hook_finding(name, k, f, s, nst, first))
     for r in results:
@@ -985,11 +1023,16 @@ def replay(path):
     if obj.get("kind") == "hook-group":
         import multiprocessing as mp
         cpus, _ = isa.load_all()
-        chunk = [(obj["hook"], obj["family"])]
+        chunk = [tuple(g) for g in obj["chunk_groups"]] if obj.get("chunk_groups") else [(obj["hook"], obj["family"])]
         with mp.get_context("fork").Pool(1, maxtasksperchild=1) as pool:
             runs = [pool.apply(job, (("hook", obj["isa"], obj["mode"], v, obj["seed"], obj.get("nstates", 1), chunk),)) for v in (0, 1, 2)]
             finds, _, _ = compare_hook(runs)
-            for f in finds[:4]:
+            for r in runs:
+                if r.get("probe_end"):
+                    print("fresh expressions over registers after the chunk (order %d):" % r["variant"], r["probe_end"])
+                    finds = finds or [None]
+            finds = [f for f in finds if f] or finds
+            for f in [f for f in finds if f][:4]:
                 first = pool.apply(job, (("first", obj["isa"], obj["mode"], obj["seed"], obj.get("nstates", 1), f["member"]),)) if f["bad"] else None
                 key, what, rep = hook_finding(obj["isa"], obj["mode"], f, obj["seed"], obj.get("nstates", 1), first)
                 print(key, what, json.dumps(rep, indent=1)[:1500], sep="\n")
